@@ -169,8 +169,10 @@ class Elastic(_Simu):
             iter = {}
 
         iter["displacement"] = self.displacement
-        if self.algo in AlgoType.Get_Hyperbolic_Types():
+        # every field the running time scheme carries from one step to the next
+        if self.algo in AlgoType.Get_Hyperbolic_and_Parabolic_Types():
             iter["speed"] = self.speed
+        if self.algo in AlgoType.Get_Hyperbolic_Types():
             iter["accel"] = self.accel
 
         return super().Save_Iter(iter)
@@ -183,15 +185,14 @@ class Elastic(_Simu):
 
         u = results["displacement"]
 
-        if (
-            self.algo in AlgoType.Get_Hyperbolic_Types()
-            and "speed" in results
-            and "accel" in results
-        ):
+        algo = self.algo
+        if algo in AlgoType.Get_Hyperbolic_and_Parabolic_Types() and "speed" in results:
             v = results["speed"]
-            a = results["accel"]
         else:
             v = np.zeros_like(u)
+        if algo in AlgoType.Get_Hyperbolic_Types() and "accel" in results:
+            a = results["accel"]
+        else:
             a = np.zeros_like(u)
 
         self._Set_solutions(self.problemType, u, v, a)
